@@ -1,4 +1,16 @@
+mod filt;
+mod genr;
+mod samp;
+
 fn main() {
-    eprintln!("usage: vh-gen <subcommand> [options]");
-    std::process::exit(2);
+    let cmd = std::env::args().nth(1).unwrap_or_default();
+    match cmd.as_str() {
+        "generator" => genr::main_generator(),
+        "filters" => filt::main_filters(),
+        "samplers" => samp::main_samplers(),
+        _ => {
+            eprintln!("usage: vh-gen <generator|filters|samplers> [options]");
+            std::process::exit(2);
+        }
+    }
 }
